@@ -39,9 +39,9 @@ func c19Vouchers(x *mc.Cell, r Role, depth int) {
 				for step := 0; step < depth; step++ {
 					var menu []string
 					if r.Created() {
-						menu = []string{"send-voucher", "send-voucher(send fails)", "incoming-result", "incoming-result(rejected)", "incoming-result(empty)"}
+						menu = []string{"send-voucher", "send-voucher(type without validator)", "send-voucher(send fails)", "incoming-result", "incoming-result(rejected)", "incoming-result(empty)"}
 					} else {
-						menu = []string{"send-result", "send-result(send fails)", "incoming-voucher", "validation-update(result)", "validation-update(no result)", "validation-update(nil node)", "validation-update(reject+result)",
+						menu = []string{"send-result", "send-result(send fails)", "incoming-voucher", "incoming-voucher(type without validator)", "validation-update(result)", "validation-update(no result)", "validation-update(nil node)", "validation-update(reject+result)",
 							"local-restart(validator returns a result)", "incoming-restart-request(validator returns a result)"}
 					}
 					a := menu[c.Choose(len(menu), fmt.Sprintf("op%d", step))]
@@ -56,6 +56,16 @@ func c19Vouchers(x *mc.Cell, r Role, depth int) {
 					switch a {
 					case "send-voucher":
 						aerr = n.Mgr.SendVoucher(context.Background(), chid, nv)
+						wantV = 1
+					case "send-voucher(type without validator)":
+						// intermediate vouchers are the application's business: no validator is registered for the type
+						nv = doubles.Voucher("U", fmt.Sprintf("voucher-%d", k))
+						aerr = n.Mgr.SendVoucher(context.Background(), chid, nv)
+						wantV = 1
+					case "incoming-voucher(type without validator)":
+						nv = doubles.Voucher("U", fmt.Sprintf("voucher-%d", k))
+						vr, _ := message.VoucherRequest(chid.ID, &nv)
+						n.RecvRequest(doubles.PeerB, vr)
 						wantV = 1
 					case "send-voucher(send fails)":
 						n.Net.FailSend = func(int, peer.ID, datatransfer.Message) error { return doubles.ErrSend }
